@@ -1244,10 +1244,11 @@ func TestVerif_C17(t *testing.T) {
 			hbfs.Explore(c, c17Spec(quick, 4, false))
 			hbfs.Explore(c, c17Spec(c17Cfg{MaxFaults: 1, V6: true}, 4, false))
 		} else {
-			hbfs.Explore(c, c17Spec(quick, 5, false))
-			hbfs.Explore(c, c17Spec(c17Cfg{MaxFaults: 2}, 4, false))
-			hbfs.Explore(c, c17Spec(c17Cfg{MaxFaults: 1, Grace: 10 * time.Second}, 4, false))
+			// small explorations first, so that a deadline hit on a loaded machine cuts the big ones
 			hbfs.Explore(c, c17Spec(quick, 3, true))
+			hbfs.Explore(c, c17Spec(c17Cfg{MaxFaults: 1, Grace: 10 * time.Second}, 4, false))
+			hbfs.Explore(c, c17Spec(c17Cfg{MaxFaults: 2}, 4, false))
+			hbfs.Explore(c, c17Spec(quick, 5, false))
 			hbfs.Explore(c, c17Spec(c17Cfg{MaxFaults: 1, V6: true}, 5, false))
 		}
 		c17AssertMu.Lock()
